@@ -13,6 +13,10 @@
       interleavings in which sender steps land between the swap-out of a batch and its hand-over, between two
       callbacks, and between the last callback of an empty hand-off and the exit check. OP (interpreted in order) ::=
         (s X) send | (t X) try_send | (f W) when_flushed | (e W) when_empty | (ds) drop Sender | (dr) drop Receiver
+        (bs X) (bt X) (ba X)        sync::blocking_send / tokio::blocking_send / tokio::send (polled once) with a ZERO
+                                    timeout: label `sendOrWaitFirst X` (try_send + queue_full_blocked accounting), then
+                                    the loop of send_or_wait with the clock at the timeout — the item is handed back
+        (q)                         the metrics sampled right here: tag `q=<len>/<truncated>/<blocked>` (a read)
         (poll)                      poll the receiver future
         (ok) (fail) (retry X…) (pa) release the processing gate with Ok / Err(no_retry) / Err(retry(remainder)) /
                                     a panic inside the future, then poll
@@ -21,14 +25,16 @@
       labels between two await points (`advance`): rxTake; rxBegin; and an `rxOutcome panicSync` whenever the call
       just made is scripted to panic in the closure; every callback is its own label (`rxFireTake`/`rxFireFlush`).
       Each fused label is an application of `Batcher.step`.
-      Output: one token per op `<tag>{,<event>}|<queue_length>/<queue_full_truncated>` and a final token
+      s, t, bs, bt, ba, q, f, e, ds are sender-side ops (SOP): legal at the top level, in windows and in callbacks.
+      Output: one token per op `<tag>{,<event>}|<queue_length>/<queue_full_truncated>/<queue_full_blocked>` and a final token
       `F:<receiver state>,<counters>`; events are `!W` (flush callback W ran), `?W` (when_empty callback W ran),
       `~W` (flush callback W dropped unrun),
       `c(X.Y.Z)` (on_batch called with [X,Y,Z]), `w<ns>` (wait requested), `done` (exec returned), `+<tag>` (a
       window op and its result, after the events it caused).
       An op that is not enabled (sender op without Sender, gate release without that gate, …) prints tag `x`.
 
-  stream `batcher_blocking`: the decision tables of the blocking entry points, see `runBlocking`.
+  stream `batcher_blocking`: the decision tables of the blocking entry points, see `runBlocking`. Send ops print
+      `<result>[,within-budget|,over-budget],t=<queue_full_truncated>,b=<queue_full_blocked>`.
 -/
 import EmitModel.Base.Sexp
 import EmitModel.Model.Batcher
@@ -36,8 +42,16 @@ import EmitModel.Model.Batcher
 namespace EmitModel.Driver.Batcher
 open EmitModel EmitModel.Batcher
 
+/-- A sender-side op: performed at the top level of a schedule, inside a window, or from inside a callback. -/
+inductive SOp where
+  | lab (l : Label)                   -- send / trySend / whenFlushed / whenEmpty / dropSender
+  | bsend (kind : String) (x : Nat)   -- bs | bt | ba: sync::blocking_send / tokio::blocking_send / tokio::send, timeout 0
+  | q                                 -- the channel's metrics sampled right here
+  deriving Repr
+
 inductive Op where
-  | lab (l : Label)          -- a sender-side label or dropReceiver
+  | sop (o : SOp)
+  | dropReceiver
   | sample (l : Label)       -- metrics sampled with a sampler whose callback performs this send / try_send
   | poll
   | out (o : Outcome)
@@ -46,22 +60,32 @@ inductive Op where
 
 def nats? (xs : List Sexp) : Option (List Nat) := xs.mapM Sexp.nat?
 
-def op? : Sexp → Option Op
+def sop? : Sexp → Option SOp
   | .list [.atom "s", x] => x.nat?.map fun x => .lab (.send x)
   | .list [.atom "t", x] => x.nat?.map fun x => .lab (.trySend x)
-  | .list [.atom "m", x] => x.nat?.map fun x => .sample (.trySend x)
-  | .list [.atom "ms", x] => x.nat?.map fun x => .sample (.send x)
+  | .list [.atom "bs", x] => x.nat?.map fun x => .bsend "bs" x
+  | .list [.atom "bt", x] => x.nat?.map fun x => .bsend "bt" x
+  | .list [.atom "ba", x] => x.nat?.map fun x => .bsend "ba" x
+  | .list [.atom "q"] => some .q
   | .list [.atom "f", w] => w.nat?.map fun w => .lab (.whenFlushed w)
   | .list [.atom "e", w] => w.nat?.map fun w => .lab (.whenEmpty w)
   | .list [.atom "ds"] => some (.lab .dropSender)
-  | .list [.atom "dr"] => some (.lab .dropReceiver)
-  | .list [.atom "poll"] => some .poll
-  | .list [.atom "ok"] => some (.out .ok)
-  | .list [.atom "fail"] => some (.out .failNoRetry)
-  | .list [.atom "pa"] => some (.out .panicAsync)
-  | .list (.atom "retry" :: xs) => (nats? xs).map fun r => .out (.failRetry r)
-  | .list [.atom "w"] => some .waited
   | _ => none
+
+def op? (x : Sexp) : Option Op :=
+  match sop? x with
+  | some o => some (.sop o)
+  | none => match x with
+    | .list [.atom "m", x] => x.nat?.map fun x => .sample (.trySend x)
+    | .list [.atom "ms", x] => x.nat?.map fun x => .sample (.send x)
+    | .list [.atom "dr"] => some .dropReceiver
+    | .list [.atom "poll"] => some .poll
+    | .list [.atom "ok"] => some (.out .ok)
+    | .list [.atom "fail"] => some (.out .failNoRetry)
+    | .list [.atom "pa"] => some (.out .panicAsync)
+    | .list (.atom "retry" :: xs) => (nats? xs).map fun r => .out (.failRetry r)
+    | .list [.atom "w"] => some .waited
+    | _ => none
 
 def showItems (xs : List Nat) : String := ".".intercalate (xs.map toString)
 
@@ -75,9 +99,9 @@ def events (s s' : St) : List String :=
   ++ (s'.waits.drop s.waits.length).map (fun d => s!"w{d}")
   ++ (if s'.rx = .done ∧ s.rx ≠ .done ∧ ¬ s'.tornDown then ["done"] else [])
 
-/-- One label of the LTS; `none` when it is not enabled. -/
-def micro (cfg : Cfg) (s : St) (l : Label) : Option (St × List String) :=
-  (step cfg s l).map fun s' => (s', events s s')
+/-- One label of the (extended) LTS; `none` when it is not enabled. -/
+def micro (cfg : Cfg) (b : BSt) (l : BLabel) : Option (BSt × List String) :=
+  (bstep cfg b l).map fun b' => (b', events b.st b'.st)
 
 def senderTag (cfg : Cfg) (s : St) : Label → String
   | .send _ => "s"
@@ -91,13 +115,16 @@ def senderTag (cfg : Cfg) (s : St) : Label → String
   | .dropReceiver => "dr"
   | _ => "?"
 
+/-- `queue_length/queue_full_truncated/queue_full_blocked` as a metrics sample reads them. -/
+def counters (b : BSt) : String := s!"{sampleQueueLength b.st}/{b.st.mTruncated}/{b.mBlocked}"
+
 structure Windows where
-  calls : List (Nat × List Label)
-  waits : List (Nat × List Label)
-  cbs : List (Nat × List Label)     -- sender ops performed from INSIDE the callback of watcher W (once)
+  calls : List (Nat × List SOp)
+  waits : List (Nat × List SOp)
+  cbs : List (Nat × List SOp)     -- sender ops performed from INSIDE the callback of watcher W (once)
 
 /-- Driver state: the model state and the watcher ids whose callback payload has already run. -/
-abbrev DS := St × List Nat
+abbrev DS := BSt × List Nat
 
 /-- The watcher whose callback ran inside this sender label (immediate path of when_flushed / when_empty). -/
 def firedNow (s s' : St) : Label → Option Nat
@@ -109,30 +136,45 @@ mutual
 /-- One sender-side op = one sender label, followed — if the label ran a callback at once — by the sender ops
     scripted for INSIDE that callback (each again a sender label, executed right after: the callback runs after
     the lock is released). `imm` = we are inside a sender call (a callback invoked by when_flushed / when_empty
-    itself): the Sender cannot be dropped there, `ds` is skipped on both sides. -/
-def senderOp (cfg : Cfg) (win : Windows) : Nat → Bool → DS → Label → DS × String × List String
+    itself): the Sender cannot be dropped there, `ds` is skipped on both sides.
+    A blocking / async send with a zero timeout is the label `sendOrWaitFirst` followed by the loop of
+    `send_or_wait` with the clock at (≥) the timeout: `sendOrWait 0 first [(0, first)]`. Sampling (`q`) is a read. -/
+def senderOp (cfg : Cfg) (win : Windows) : Nat → Bool → DS → SOp → DS × String × List String
   | 0, _, ds, _ => (ds, "fuel!", [])
-  | fuel + 1, imm, (s, used), l =>
-    if imm && l == .dropSender then ((s, used), "x", [])
-    else match micro cfg s l with
-      | none => ((s, used), "x", [])
-      | some (s', e) =>
-        let tag := senderTag cfg s l
-        match firedNow s s' l with
-        | some w => let (ds', pe) := cbPayload cfg win fuel true (s', used) w; (ds', tag, e ++ pe)
-        | none => ((s', used), tag, e)
+  | _ + 1, _, (b, used), .q =>
+    if b.st.senderAlive then ((b, used), s!"q={counters b}", []) else ((b, used), "x", [])
+  | _ + 1, _, (b, used), .bsend kind x =>
+    match micro cfg b (.sendOrWaitFirst x) with
+    | none => ((b, used), "x", [])
+    | some (b', e) =>
+      let first := (sendOrWaitFirst cfg b x).2
+      let tag := match sendOrWait 0 first [(0, first)] with
+        | some .ok => s!"{kind}=ok"
+        | some (.handedBack y) => s!"{kind}=full({y})"
+        | some .errNoItem => s!"{kind}=closed"
+        | none => s!"{kind}=pending"
+      ((b', used), tag, e)
+  | fuel + 1, imm, (b, used), .lab l =>
+    if imm && l == .dropSender then ((b, used), "x", [])
+    else match micro cfg b (.base l) with
+      | none => ((b, used), "x", [])
+      | some (b', e) =>
+        let tag := senderTag cfg b.st l
+        match firedNow b.st b'.st l with
+        | some w => let (ds', pe) := cbPayload cfg win fuel true (b', used) w; (ds', tag, e ++ pe)
+        | none => ((b', used), tag, e)
 
 /-- The sender ops scripted for inside the callback of watcher `w` (at most once per id); each prints its events,
     then `+<tag>`. -/
 def cbPayload (cfg : Cfg) (win : Windows) : Nat → Bool → DS → Nat → DS × List String
   | 0, _, ds, _ => (ds, ["fuel!"])
-  | fuel + 1, imm, (s, used), w =>
-    if used.contains w then ((s, used), [])
+  | fuel + 1, imm, (b, used), w =>
+    if used.contains w then ((b, used), [])
     else match win.cbs.lookup w with
-      | none => ((s, used), [])
-      | some ops => senderOps cfg win fuel imm (s, w :: used) ops []
+      | none => ((b, used), [])
+      | some ops => senderOps cfg win fuel imm (b, w :: used) ops []
 
-def senderOps (cfg : Cfg) (win : Windows) : Nat → Bool → DS → List Label → List String → DS × List String
+def senderOps (cfg : Cfg) (win : Windows) : Nat → Bool → DS → List SOp → List String → DS × List String
   | 0, _, ds, _, acc => (ds, acc ++ ["fuel!"])
   | _ + 1, _, ds, [], acc => (ds, acc)
   | fuel + 1, imm, ds, l :: ls, acc =>
@@ -145,28 +187,31 @@ end
     sender labels are executed FIRST (the label reads no shared state), and the output is ordered as the code
     produces it: window ops, then the call / wait. -/
 def rxStep (cfg : Cfg) (win : Windows) (ds : DS) (l : Label) : Option (DS × List String) :=
-  let (s, used) := ds
-  match step cfg s l with
+  let (b, used) := ds
+  let s := b.st
+  match bstep cfg b (.base l) with
   | none => none
-  | some s1 =>
-    let w : Option (List Label) :=
+  | some b1 =>
+    let s1 := b1.st
+    let w : Option (List SOp) :=
       if s1.calls.length > s.calls.length then win.calls.lookup s.calls.length
       else if s1.waits.length > s.waits.length then win.waits.lookup s.waits.length
       else none
     match w with
-    | none => some ((s1, used), events s s1)
+    | none => some ((b1, used), events s s1)
     | some ops =>
-      let ((s0, used0), pev) := senderOps cfg win 64 false (s, used) ops []
-      match step cfg s0 l with
-      | none => some ((s0, used0), pev ++ ["stuck!"])
-      | some s2 => some ((s2, used0), pev ++ events s0 s2)
+      let ((b0, used0), pev) := senderOps cfg win 64 false (b, used) ops []
+      match bstep cfg b0 (.base l) with
+      | none => some ((b0, used0), pev ++ ["stuck!"])
+      | some b2 => some ((b2, used0), pev ++ events b0.st b2.st)
 
 /-- Run the receiver from where it is to its next await point (or its return): the hand-off, every callback one
     by one (each followed by the sender ops scripted for inside it), the call / exit check, and an
     `rxOutcome panicSync` whenever the call just made is scripted to panic in the closure. -/
 def advance (cfg : Cfg) (sp : List Nat) (win : Windows) : Nat → DS → List String → DS × List String
   | 0, ds, evs => (ds, evs ++ ["fuel!"])
-  | fuel + 1, (s, used), evs =>
+  | fuel + 1, (b, used), evs =>
+    let s := b.st
     -- (label, watcher whose callback this label runs)
     let next : Option (Label × Option Nat) :=
       match s.rx with
@@ -178,10 +223,10 @@ def advance (cfg : Cfg) (sp : List Nat) (win : Windows) : Nat → DS → List St
       | .processing _ _ _ => if sp.contains (s.calls.length - 1) then some (.rxOutcome .panicSync, none) else none
       | _ => none
     match next with
-    | none => ((s, used), evs)
+    | none => ((b, used), evs)
     | some (l, cb) =>
-      match rxStep cfg win (s, used) l with
-      | none => ((s, used), evs ++ ["stuck!"])
+      match rxStep cfg win (b, used) l with
+      | none => ((b, used), evs ++ ["stuck!"])
       | some (ds', e) =>
         match cb with
         | none => advance cfg sp win fuel ds' (evs ++ e)
@@ -189,39 +234,39 @@ def advance (cfg : Cfg) (sp : List Nat) (win : Windows) : Nat → DS → List St
           let (ds'', pe) := cbPayload cfg win 64 false ds' w
           advance cfg sp win fuel ds'' (evs ++ e ++ pe)
 
-def tok (tag : String) (evs : List String) (s : St) : String :=
-  ",".intercalate (tag :: evs) ++ s!"|{s.pending.length}/{s.mTruncated}"
+def tok (tag : String) (evs : List String) (b : BSt) : String :=
+  ",".intercalate (tag :: evs) ++ s!"|{counters b}"
 
 /-- Interpret one op; returns the new state and the output token. -/
 def runOp (cfg : Cfg) (sp : List Nat) (win : Windows) (ds : DS) : Op → DS × String
-  | .lab .dropReceiver =>
-    match micro cfg ds.1 .dropReceiver with
+  | .dropReceiver =>
+    match micro cfg ds.1 (.base .dropReceiver) with
     | none => (ds, tok "x" [] ds.1)
-    | some (s', e) => ((s', ds.2), tok "dr" e s')
-  | .lab l =>
-    let (ds', tag, e) := senderOp cfg win 64 false ds l
+    | some (b', e) => ((b', ds.2), tok "dr" e b')
+  | .sop o =>
+    let (ds', tag, e) := senderOp cfg win 64 false ds o
     (ds', tok tag e ds'.1)
   | .sample l =>
     -- `sample_metrics` reads `sampleQueueLength` under the lock and releases it before calling the sampler
     -- (lib.rs:659-678), so the send performed by the sampler's callback is an ordinary sender step
-    let _q := sampleQueueLength ds.1
-    let (ds', tag, e) := senderOp cfg win 64 false ds l
+    let _q := sampleQueueLength ds.1.st
+    let (ds', tag, e) := senderOp cfg win 64 false ds (.lab l)
     let tag' := if tag == "x" then "x" else if tag == "s" then "ms" else "m" ++ (tag.drop 1).toString
     (ds', tok tag' e ds'.1)
   | .poll =>
-    match ds.1.rx with
+    match ds.1.st.rx with
     | .done => (ds, tok "x" [] ds.1)
     | .idle => let (ds', e) := advance cfg sp win 400 ds []; (ds', tok "r" e ds'.1)
     | _ => (ds, tok "r" [] ds.1)
   | .out o =>
-    match ds.1.rx with
+    match ds.1.st.rx with
     | .processing _ _ _ =>
       match rxStep cfg win ds (.rxOutcome o) with
       | none => (ds, tok "x" [] ds.1)
       | some (ds1, e1) => let (ds', e) := advance cfg sp win 400 ds1 e1; (ds', tok "r" e ds'.1)
     | _ => (ds, tok "x" [] ds.1)
   | .waited =>
-    match ds.1.rx with
+    match ds.1.st.rx with
     | .retryWait _ _ _ =>
       match rxStep cfg win ds .rxRetryWaited with
       | none => (ds, tok "x" [] ds.1)
@@ -236,19 +281,12 @@ def runOps (cfg : Cfg) (sp : List Nat) (win : Windows) : DS → List Op → List
   | ds, [], acc => (ds, acc.reverse)
   | ds, o :: os, acc => let (ds', t) := runOp cfg sp win ds o; runOps cfg sp win ds' os (t :: acc)
 
-/-- A sender-side op inside a window / callback: (label, is it performed through a metrics sampler). -/
-def senderLabel? (x : Sexp) : Option Label :=
-  match op? x with
-  | some (.lab .dropReceiver) => none
-  | some (.lab l) => some l
-  | _ => none
-
 /-- (kind, index or watcher id, sender ops): kind 0 = before the I-th on_batch call, 1 = before the J-th wait call,
     2 = inside the callback of watcher W -/
-def window? : Sexp → Option (Nat × Nat × List Label)
-  | .list (.atom "c" :: i :: ops) => do pure (0, ← i.nat?, ← ops.mapM senderLabel?)
-  | .list (.atom "w" :: i :: ops) => do pure (1, ← i.nat?, ← ops.mapM senderLabel?)
-  | .list (.atom "cb" :: i :: ops) => do pure (2, ← i.nat?, ← ops.mapM senderLabel?)
+def window? : Sexp → Option (Nat × Nat × List SOp)
+  | .list (.atom "c" :: i :: ops) => do pure (0, ← i.nat?, ← ops.mapM sop?)
+  | .list (.atom "w" :: i :: ops) => do pure (1, ← i.nat?, ← ops.mapM sop?)
+  | .list (.atom "cb" :: i :: ops) => do pure (2, ← i.nat?, ← ops.mapM sop?)
   | _ => none
 
 def windows? (ws : List Sexp) : Option Windows := do
@@ -271,28 +309,30 @@ def rxName (s : St) : String :=
 def finalTok (s : St) : String :=
   s!"F:{rxName s},proc={s.mProcessed},fail={s.mFailed},panic={s.mPanicked},retry={s.mRetry}"
 
-def signature (s : St) (nops : Nat) : String :=
+def signature (b : BSt) (nops : Nat) : String :=
+  let s := b.st
   if nops = 0 then "trivial"
   else
-    let b (p : Bool) (t : String) : String := if p then t else ""
+    let f (p : Bool) (t : String) : String := if p then t else ""
     s!"calls={min s.calls.length 6},rx={rxName s}"
-      ++ b (s.mTruncated > 0) ",trunc" ++ b (s.mRetry > 0) ",retry" ++ b (s.mPanicked > 0) ",panic"
-      ++ b (s.mFailed > 0) ",fail" ++ b (!s.fired.isEmpty) ",fired" ++ b (!s.firedTake.isEmpty) ",firedTake" ++ b (!s.dropped.isEmpty) ",dropped"
-      ++ b (!s.senderAlive) ",closed" ++ b (s.waits.contains (Cfg.real 1).idleCap) ",idlecap" ++ b (s.callsPerBatch.any (· ≥ 11)) ",exhausted"
+      ++ f (s.mTruncated > 0) ",trunc" ++ f (b.mBlocked > 0) ",blocked" ++ f (s.mRetry > 0) ",retry" ++ f (s.mPanicked > 0) ",panic"
+      ++ f (s.mFailed > 0) ",fail" ++ f (!s.fired.isEmpty) ",fired" ++ f (!s.firedTake.isEmpty) ",firedTake" ++ f (!s.dropped.isEmpty) ",dropped"
+      ++ f (!s.senderAlive) ",closed" ++ f (s.waits.contains (Cfg.real 1).idleCap) ",idlecap" ++ f (s.callsPerBatch.any (· ≥ 11)) ",exhausted"
 
 /-- Projection of the full trace onto one property's observables (mirrors `Proj` in the Rust stream):
-    event kinds kept (by first character), op tags kept, `|queue/truncated` kept, final counters kept. -/
+    event kinds kept (by first character), op tags kept, `|queue/truncated[/blocked]` kept, final counters kept. -/
 structure Proj where
   events : String
   tags : Bool
   queue : Bool
+  blocked : Bool
   counters : Bool
 
-def projFull : Proj := ⟨"!?~cwdP+", true, true, true⟩
-def proj06 : Proj := ⟨"cdP+", true, true, false⟩
-def proj07 : Proj := ⟨"!~cP", false, false, false⟩
-def proj08 : Proj := ⟨"!?~cwdP", false, false, true⟩
-def proj09 : Proj := ⟨"+", true, true, false⟩
+def projFull : Proj := ⟨"!?~cwdP+", true, true, true, true⟩
+def proj06 : Proj := ⟨"cdP+", true, true, false, false⟩
+def proj07 : Proj := ⟨"!~cP", false, false, false, false⟩
+def proj08 : Proj := ⟨"!?~cwdP", false, false, false, true⟩
+def proj09 : Proj := ⟨"+", true, true, true, false⟩
 
 def projectTok (p : Proj) (tok : String) : String :=
   if tok.startsWith "F:" then
@@ -307,7 +347,8 @@ def projectTok (p : Proj) (tok : String) : String :=
     let evs := parts.tail.filter fun e => match e.toList with
       | c :: _ => p.events.toList.contains c
       | [] => false
-    ",".intercalate (tag' :: evs) ++ (if p.queue then "|" ++ q else "")
+    let q' := if p.blocked then q else "/".intercalate ((q.splitOn "/").take 2)
+    ",".intercalate (tag' :: evs) ++ (if p.queue then "|" ++ q' else "")
 
 def runBatcherProj (p : Proj) (line : String) : String :=
   match Sexp.parse line with
@@ -315,10 +356,10 @@ def runBatcherProj (p : Proj) (line : String) : String :=
     match cap.nat?.filter (· ≥ 1), nats? sp, windows? ws, ops.mapM op? with
     | some cap, some sp, some win, some ops =>
       let cfg := Cfg.real cap
-      let ((s, used), toks) := runOps cfg sp win (init, []) ops []
-      let trace := toks ++ [finalTok s]
+      let ((b, used), toks) := runOps cfg sp win (binit, []) ops []
+      let trace := toks ++ [finalTok b.st]
       let winHit := trace.any fun t => (t.splitOn ",+").length > 1
-      " ".intercalate (trace.map (projectTok p)) ++ "\t" ++ signature s ops.length
+      " ".intercalate (trace.map (projectTok p)) ++ "\t" ++ signature b ops.length
         ++ (if winHit then ",win" else "") ++ (if used.isEmpty then "" else ",cb")
     | _, _, _, _ => "bad-op"
   | _ => "bad-op"
@@ -384,8 +425,12 @@ def runBlocking (line : String) : String :=
       let path := blockingPath api ctx
       let rxn := match rx with | .live => "live" | .stalled => "stalled" | .gone => "gone" | .late => "late" | .refill => "refill" | .hangup => "hangup"
       let sig := s!"{pathName path},{op},rx={rxn}"
+      -- the counters after a send: truncations come from the prefill alone, blocked = the first attempt failed
+      -- (against a live / late receiver thread with a full queue that depends on thread scheduling: `b=?`)
+      let (mt, mb) := blockingSendCounters cfg rx prefill 999
+      let cnt := s!",t={mt},b=" ++ (if (rx = .live ∨ rx = .late) ∧ prefill ≥ cap then "?" else toString mb)
       if (api = .async ∧ ctx ≠ .tokioCurrentThread) ∨ (rx = .hangup ∧ (api ≠ .async ∨ op ≠ "flush")) then "bad-op"
-      else if rx = .refill ∧ (op ≠ "send" ∨ prefill < cap ∨ api = .async ∨ timeout < 200 ∨ timeout > 5000) then "bad-op"
+      else if rx = .refill ∧ (op ≠ "send" ∨ prefill < cap ∨ timeout < 200 ∨ timeout > 5000) then "bad-op"
       else if pathPanics path ctx then s!"panic\t{sig}"
       else if rx = .refill then
         -- remaining-time accounting (C08.send_or_wait_within_budget): the last clock reading is within 1.4·T
@@ -398,7 +443,9 @@ def runBlocking (line : String) : String :=
         let within := match sendOrWaitLastReading timeout first obs with
           | some t => decide (t * 10 ≤ timeout * 14)
           | none => true
-        s!"{res},{if within then "within-budget" else "over-budget"}\t{sig}"
+        -- every wait round is asked for the REMAINING time (C09.send_or_wait_asks_remaining)
+        let asked := ".".intercalate ((sendOrWaitAsked timeout first obs).map fun p => toString p.2)
+        s!"{res},{if within then "within-budget" else "over-budget"}{cnt}\t{sig},asked={asked}"
       else if api = .async ∧ op = "flush" then s!"{asyncFlush cfg rx prefill timeout}\tasync,{op},rx={rxn}"
       else if op = "flush" then
         match blockingFlush cfg rx prefill timeout with
@@ -406,9 +453,9 @@ def runBlocking (line : String) : String :=
         | none => s!"blocked\t{sig}"
       else if op = "send" then
         match blockingSend cfg rx prefill timeout 999 with
-        | some .ok => s!"ok\t{sig}"
-        | some (.handedBack y) => s!"err({y})\t{sig}"
-        | some .errNoItem => s!"err(noitem)\t{sig}"
+        | some .ok => s!"ok{cnt}\t{sig}"
+        | some (.handedBack y) => s!"err({y}){cnt}\t{sig}"
+        | some .errNoItem => s!"err(noitem){cnt}\t{sig}"
         | none => s!"blocked\t{sig}"
       else "bad-op"
     | _, _, _, _, _, _ => "bad-op"
@@ -418,7 +465,7 @@ def runBlocking (line : String) : String :=
 def runBlockingC08 (line : String) : String :=
   match (runBlocking line).splitOn "\t" with
   | [o, sig] => (if o == "panic" then "panic" else if o == "bad-op" then "bad-op" else if o == "blocked" then "blocked"
-      else if (o.splitOn "-budget").length > 1 then o else "returned") ++ "\t" ++ sig
+      else if (o.splitOn "-budget").length > 1 then ",".intercalate ((o.splitOn ",").take 2) else "returned") ++ "\t" ++ sig
   | _ => runBlocking line
 
 /-- stream `batcher_mt` (thorough): an OS-scheduled soak on real threads, judged by the implementation-side oracle
